@@ -6,8 +6,11 @@ from sa.model import AnalysisError, Unknown, norm, unwrap, EnumMember
 from sa.query import Facts, call_name, find_calls, try_fold, calls_in, defs_of, kwarg
 from sa.prov import Prov
 from sa.layout import Layout
-from .common import firmware, protocol_classes
+from .common import firmware, protocol_classes, answer_field
 from .c06 import _strip
+from sa.canon import canon_list, canon_list_text, fold_consts
+from sa.layout import _subst_target
+from sa.decide import Walker, return_values, completions, cmp_parts
 from .c01 import _lay
 
 TECHNIQUE = ("provenance expansion + byte-layout normalisation of the init / metadata / chunk / brother-list messages "
@@ -185,27 +188,37 @@ def run(run):
              "leave_btcblock=True, hex=False)).hex(); update_ancestor passes None for brothers.")
     ga = A.cfg(adv, D)
     c = find_calls(A, adv, "_do_block_operation")[0]
+    def key_text(k):
+        """canonical body of a sort-key function over $x: a lambda, or a reference to a one-expression function"""
+        if isinstance(k, ast.Lambda) and len(k.args.args) == 1:
+            return _strip(norm(_subst_target(k.body, ast.Name(id=k.args.args[0].arg, ctx=ast.Store()), ast.Name(id="$", ctx=ast.Load())))).replace("ELEM($)", "$x")
+        if isinstance(k, (ast.Name, ast.Attribute)):
+            nm = k.id if isinstance(k, ast.Name) else k.attr
+            cands = [f for f in P.all_functions if f.name == nm and f.module is adv.module]
+            if len(cands) == 1:
+                f = cands[0]
+                ps = [p_ for p_ in f.params if p_ not in ("self", "cls")]
+                vals = return_values(A, f, f.cls, PV)
+                if len(ps) == 1 and len(vals) == 1:
+                    e = ast.parse(next(iter(vals)), mode="eval").body
+                    return _strip(norm(_subst_target(e, ast.Name(id=ps[0], ctx=ast.Store()), ast.Name(id="$", ctx=ast.Load())))).replace("ELEM($)", "$x")
+        return "?" + norm(k)
     for cn in ga.nodes_of(c):
-        got = {_strip(x) for x in PV.expand_consistent(adv, D, c.args[2], cn)}
-        want = _strip("list(map(lambda brolist: sorted(brolist, key=lambda bh: bytes.fromhex(get_block_hash(bh))), brothers))")
-        ok = len(got) == 1
-        if ok:
-            e = ast.parse(next(iter(got)), mode="eval").body
-            ok = isinstance(e, ast.Call) and call_name(e) == "list" and isinstance(e.args[0], ast.Call) and call_name(e.args[0]) == "map" \
-                and isinstance(e.args[0].args[0], ast.Lambda) and norm(e.args[0].args[1]) == "brothers"
-            if ok:
-                lam = e.args[0].args[0]
-                p = lam.args.args[0].arg
-                s = lam.body
-                ok = isinstance(s, ast.Call) and call_name(s) == "sorted" and [norm(a) for a in s.args] == [p] \
-                    and [k.arg for k in s.keywords] == ["key"] and isinstance(s.keywords[0].value, ast.Lambda)
-                if ok:
-                    kl = s.keywords[0].value
-                    kp = kl.args.args[0].arg
-                    ok = norm(kl.body) == f"bytes.fromhex(get_block_hash({kp}))"
-        run.check("R4", ok, "brothers sorted ascending by block-hash bytes, list by list", key="advance_blockchain|sort", where=adv.loc(c),
-                  message=f"advance_blockchain passes brothers = {sorted(got)[:1]}; the device requires each list sorted ascending by "
-                          "the bytes of the block hash (no reverse, not keyed on the raw header or the hex string of something else)")
+        got = set()
+        for x in PV.expand_consistent(adv, D, c.args[2], cn):
+            e = ast.parse(x, mode="eval").body
+
+            def text(el):
+                # sorted(ELEM(brothers), key=K) -> canonical text with the key function's body
+                if isinstance(el, ast.Call) and call_name(el) == "sorted" and len(el.args) == 1:
+                    kws = {k.arg: k.value for k in el.keywords}
+                    extra = sorted(set(kws) - {"key"})
+                    return f"sorted({norm(el.args[0])}, key={key_text(kws['key']) if 'key' in kws else None}{', ' + ', '.join(f'{k}={norm(kws[k])}' for k in extra) if extra else ''})"
+                return norm(el)
+            cl_ = canon_list(e, text)
+            got.add(tuple(cl_) if cl_ is not None else ("?" + x,))
+        want = ("map(sorted(ELEM(brothers), key=bytes.fromhex(get_block_hash($x))))",)
+        ok = got == {want}
         run.check("R4", norm(c.args[1]) == "blocks", "blocks passed unmodified", key="advance_blockchain|blocks", where=adv.loc(c),
                   message=f"advance_blockchain passes blocks = `{norm(c.args[1])}`")
     gbh = P.func("ledger.block_utils.get_block_hash")
@@ -240,6 +253,21 @@ def run(run):
 
     # ---------------------------------------------------------------- R5
     _mm_table(run, F, PV, upd, D)
+    # ---------------------------------------------------------------- R7
+    _brother_list_answer(run, PV, D, dbo, g, lay)
+    # byte-exact relay under any chunk-request pattern: the chunk loop's decision table (rule R3 of C01) under the prefix K.
+    from . import c01
+    sdc_ = P.method(D, "_send_data_in_chunks")
+    dflt = {}
+    a__ = sdc_.node.args
+    ps__ = [x.arg for x in a__.args]
+    for nm__, dv__ in zip(ps__[len(ps__) - len(a__.defaults):], a__.defaults):
+        dflt[nm__] = dv__
+    run.rid_prefix = "K."
+    try:
+        c01._chunk_loop(run, PV, D, sdc_, dflt)
+    finally:
+        run.rid_prefix = ""
     # ---------------------------------------------------------------- R6
     run.rule("R6", "Coinbase hash: midstate = zeros(8) | tx[:40] | zeros(4), tail = tx[40:], second round SHA-256 reversed; the three "
              "sizes equal the firmware's CB_MIDSTATE_PREFIX / CB_MIDSTATE_DATA / CB_MIDSTATE_SUFFIX; get_coinbase_txn returns the last "
@@ -251,24 +279,104 @@ def run(run):
                   message=f"{py} = {v}, firmware {c} = {bc.get(c)}")
     cb = P.func("comm.pow.coinbase_tx_get_hash")
     gcb = A.cfg(cb, None)
-    ms = defs_of(A, cb, "tx_midstate")
-    tt = defs_of(A, cb, "tx_tail")
-    run.check("R6", len(ms) == 1 and norm(ms[0].value) == "bytes([0] * _MIDSTATE_PREFIX_SIZE) + tx[:_MIDSTATE_SIZE_TRIMMED] + bytes([0] * _MIDSTATE_SUFFIX_SIZE)"
-              and len(tt) == 1 and norm(tt[0].value) in ("tx[_MIDSTATE_SIZE_TRIMMED:len(tx)]", "tx[_MIDSTATE_SIZE_TRIMMED:]"),
-              "midstate / tail split", key="coinbase_tx_get_hash|split", where=cb.loc(), message="the coinbase midstate / tail composition changed")
-    hd = defs_of(A, cb, "coinbase_tx_hash")
-    run.check("R6", len(hd) == 1 and norm(hd[0].value) == "bytes(reversed(hashlib.sha256(hash_round1).digest())).hex()", "double SHA-256, reversed",
-              key="coinbase_tx_get_hash|final", where=cb.loc(), message="the coinbase hash finalisation changed")
+    Lc = Layout(lambda e: try_fold(P, e, cb, None))
+    sm_ = find_calls(A, cb, "set_midstate")
+    up_ = find_calls(A, cb, "update")
+    okm = len(sm_) == 1 and len(up_) == 1
+    gotm = gott = None
+    if okm:
+        for cn in gcb.nodes_of(sm_[0]):
+            gotm = {Lc.canon(x) for x in PV.expand_consistent(cb, None, sm_[0].args[0], cn, stop=("tx",))}
+        for cn in gcb.nodes_of(up_[0]):
+            gott = {Lc.canon(x) for x in PV.expand_consistent(cb, None, up_[0].args[0], cn, stop=("tx",))}
+        okm = gotm == {"zeros(8) | tx[:40] | zeros(4)"} and gott == {"tx[40:]"} and norm(sm_[0].func.value) == norm(up_[0].func.value)
+    txd = defs_of(A, cb, "tx")
+    okm = okm and len(txd) == 1 and norm(txd[0].value) == f"bytes.fromhex({cb.params[0]})"
+    run.check("R6", okm, "midstate / tail split", key="coinbase_tx_get_hash|split", where=cb.loc(),
+              message=f"the coinbase midstate / tail composition changed: set_midstate({sorted(gotm or [])}), update({sorted(gott or [])}); expected zeros(8) | tx[:40] | "
+                      "zeros(4) and tx[40:] of the decoded transaction, fed to the same hash object")
+    finals = set()
+    for r in [n for n in A.own_nodes(cb) if isinstance(n, ast.Return)]:
+        for rn in gcb.nodes_of(r):
+            for x in PV.expand_consistent(cb, None, r.value, rn, stop=("tx",)):
+                e = ast.parse(x, mode="eval").body
+                if isinstance(e, ast.Call) and isinstance(e.func, ast.Attribute) and e.func.attr == "hex" and not e.args:
+                    finals.add(Lc.canon(e.func.value))
+                else:
+                    finals.add("?" + x)
+    hobj = norm(sm_[0].func.value) if sm_ else "?"
+    okf = len(finals) == 1 and re.fullmatch(r"rev\(hashlib\.sha256\((.+)\.digest\(\)\)\.digest\(\)\)", next(iter(finals))) is not None \
+        and "thirdparty.sha256.SHA256()" in next(iter(finals))
+    run.check("R6", okf, "double SHA-256, reversed", key="coinbase_tx_get_hash|final", where=cb.loc(),
+              message=f"the coinbase hash finalisation changed: returns hex of {sorted(finals)[:1]}; expected the byte-reversed hashlib.sha256 of the first round's digest")
     gc = P.func("ledger.block_utils.get_coinbase_txn")
     rr = [n for n in A.own_nodes(gc) if isinstance(n, ast.Return)]
     ggc = A.cfg(gc, None)
+    locs_g = set(PV.defs(gc, None)) | set(gc.params)
     for r in rr:
-        run.check("R6", norm(r.value) == "block[-1].hex()", "coinbase transaction is the header's last field", key="get_coinbase_txn|field",
-                  where=gc.loc(r), message=f"get_coinbase_txn returns `{norm(r.value)}`")
         for rn in ggc.nodes_of(r):
-            facts = {f.text() for f in F.local(gc, None, rn)}
-            run.check("R6", "num_fields in [19, 20]" in facts, "only for 19/20-field headers", key="get_coinbase_txn|field-count", where=gc.loc(r),
+            vals = {_strip(x) for x in PV.expand_consistent(gc, None, r.value, rn)}
+            run.check("R6", vals == {_strip(f"rlp.decode(bytes.fromhex({gc.params[0]}))[-1].hex()")}, "coinbase transaction is the header's last field", key="get_coinbase_txn|field",
+                      where=gc.loc(r), message=f"get_coinbase_txn returns {sorted(vals)[:2]}")
+            facts = set()
+            for t in F.expanded(gc, None, rn, PV, stop=("block",)):
+                try:
+                    facts.add(_strip(norm(fold_consts(P, ast.parse(t, mode="eval").body, gc, None, locals_=locs_g))))
+                except SyntaxError:
+                    facts.add(t)
+            run.check("R6", "len(block) in [19, 20]" in facts or "len(block) in (19, 20)" in facts, "only for 19/20-field headers", key="get_coinbase_txn|field-count", where=gc.loc(r),
                       message="get_coinbase_txn accepts headers without merge-mining fields")
+
+
+def _brother_list_answer(run, PV, D, dbo, g, lay):
+    """R7: what the answer to the brother-list metadata may be."""
+    P, A = run.P, run.A
+    run.rule("R7", "Answer to the brother-list metadata, decided on the decision table of the region from that send to the brother loop: "
+             "with C = (brother count > 0) and M = (answer op == ops.BROTHER_META): C and not M -> (False, ERROR_UNEXPECTED); every "
+             "other case goes on (with no brothers the device may ask for the next block, report success or partial success).")
+    target = [c for k, (ls, c) in lay.items() if ls == {"u8(ops.BROTHER_LIST_META) | u8(len(brother_list))"}]
+    run.require(len(target) == 1, "_do_block_operation: the brother-list metadata send was not identified")
+    send = target[0]
+    sn = g.nodes_of(send)
+    run.require(len(sn) == 1, "_do_block_operation: brother-list send node not unique")
+    okop, OPI = try_fold(P, ast.parse("self.OFF.OP", mode="eval").body, dbo, D)
+
+    def atom(e):
+        cp = cmp_parts(e)
+        if cp is None:
+            return None
+        l, op, r = cp
+        lt, rt = _strip(norm(l)), _strip(norm(r))
+        cnt = ("brother_count", "len(brother_list)", "len(brothers[block_number - 1])")
+        if lt in cnt and isinstance(r, ast.Constant) and r.value == 0 and op in (">", "<=", "!=", "=="):
+            return ("C", op in (">", "!="))
+        if lt in cnt and isinstance(r, ast.Constant) and r.value == 1 and op in (">=", "<"):
+            return ("C", op == ">=")
+        if rt == "ops.BROTHER_META" and op in ("==", "!=") and isinstance(l, ast.Subscript):
+            call, idx = answer_field(run, PV, dbo, D, l, sn[0])
+            ok_ = isinstance(l.slice, ast.AST) and try_fold(P, l.slice, dbo, D) == (True, OPI)
+            if ok_:
+                return ("M", op == "==")
+        return None
+    n_cases = 0
+    # seed the store with what precedes the send inside the same block (brother_count etc. stay symbolic)
+    for lf in Walker(A, dbo, D, atom, stop_at_for=True).walk(sn[0]):
+        if lf.kind == "return":
+            v = lf.deep(lf.node.ast.value) if lf.node.ast.value is not None else None
+            actual = "fail:" + (norm(v.elts[1]) if isinstance(v, ast.Tuple) and len(v.elts) == 2 else norm(v)) if v is not None else "return"
+        elif lf.kind == "stop":
+            actual = "go on"
+        else:
+            actual = lf.kind
+        for val in completions({k: b for k, b in lf.pc.items() if k in ("C", "M")}, ["C", "M"]):
+            n_cases += 1
+            want = "fail:responses.ERROR_UNEXPECTED" if (val["C"] and not val["M"]) else "go on"
+            desc = f"C={'T' if val['C'] else 'F'}, M={'T' if val['M'] else 'F'}"
+            run.check("R7", actual == want, f"[{desc}] -> {want}", key=f"_do_block_operation|brother-list-answer|{desc}", where=dbo.loc(lf.node.ast) if lf.node.ast is not None else dbo.loc(),
+                      message=f"after the brother-list metadata, case [{desc}] (C: the block has brothers, M: the device asks for brother metadata): the code does "
+                              f"`{actual}`, the protocol requires `{want}` (e.g. with no brothers the device legitimately answers with the next block request, "
+                              "success or partial success)")
+    run.floor("R7", "brother-list answer cases", n_cases, 4)
 
 
 def _mm_table(run, F, PV, upd, D):
@@ -283,31 +391,92 @@ def _mm_table(run, F, PV, upd, D):
     d = rm.node.args.defaults
     run.check("R5", [norm(x) for x in d] == ["True", "True"] and rm.params[1:] == ["leave_btcblock", "hex"], "defaults leave_btcblock=True, hex=True",
               key="remove_mm_fields_if_present|defaults", where=rm.loc(), message=f"defaults are {[norm(x) for x in d]}")
-    table = {}
-    for dd in PV.defs(rm, None).get("block_without_mm_fields", []):
-        facts = sorted(f.text() for f in F.local(rm, None, dd.cnode))
-        v = dd.value
-        if isinstance(v, ast.IfExp):
-            table[(tuple(facts), True)] = norm(v.body) if norm(v.test) == "leave_btcblock" else None
-            table[(tuple(facts), False)] = norm(v.orelse) if norm(v.test) == "leave_btcblock" else None
-        else:
-            table[(tuple(facts), None)] = norm(v)
-    want = {(("num_fields in [17, 18, 19, 20]", "num_fields in [19, 20]"), True): "block[:-2]",
-            (("num_fields in [17, 18, 19, 20]", "num_fields in [19, 20]"), False): "block[:-3]",
-            (("num_fields in [17, 18, 19, 20]", "num_fields not in [19, 20]"), True): "block",
-            (("num_fields in [17, 18, 19, 20]", "num_fields not in [19, 20]"), False): "block[:-1]"}
-    run.check("R5", table == want, "slice table", key="remove_mm_fields_if_present|slice-table", where=rm.loc(),
-              message=f"merge-mining slice table is {table}; expected {want}")
-    nf = defs_of(A, rm, "num_fields")
-    bd = defs_of(A, rm, "block")
-    run.check("R5", len(nf) == 1 and norm(nf[0].value) == "len(block)" and len(bd) == 1 and norm(bd[0].value) == f"rlp.decode(bytes.fromhex({rm.params[0]}))",
-              "field count of the decoded header", key="remove_mm_fields_if_present|decode", where=rm.loc(), message="decoding / field counting changed")
-    enc = defs_of(A, rm, "block_without_mm_fields_rlp")
-    run.check("R5", len(enc) == 1 and norm(enc[0].value) == "rlp.encode(block_without_mm_fields)", "re-encoded with rlp.encode",
-              key="remove_mm_fields_if_present|encode", where=rm.loc(), message="re-encoding changed")
-    rets = sorted(norm(n.value) for n in A.own_nodes(rm) if isinstance(n, ast.Return))
-    run.check("R5", rets == ["block_without_mm_fields_rlp", "block_without_mm_fields_rlp.hex()"], "returns bytes or hex of the re-encoding",
-              key="remove_mm_fields_if_present|returns", where=rm.loc(), message=f"returns {rets}")
+    pr = rm.params[0]
+    n_cases = 0
+
+    def iev(e, env):
+        """integer / membership evaluation of a closed expression under env (len(block) -> n, flags)"""
+        if isinstance(e, ast.Constant):
+            return e.value
+        if isinstance(e, ast.Name) and e.id in env:
+            return env[e.id]
+        if isinstance(e, ast.Call) and isinstance(e.func, ast.Name) and e.func.id == "len" and len(e.args) == 1 and norm(e.args[0]) == "block":
+            return env["$n"]
+        if isinstance(e, (ast.List, ast.Tuple, ast.Set)):
+            return [iev(x, env) for x in e.elts]
+        if isinstance(e, ast.UnaryOp) and isinstance(e.op, ast.USub):
+            return -iev(e.operand, env)
+        if isinstance(e, ast.UnaryOp) and isinstance(e.op, ast.Not):
+            return not iev(e.operand, env)
+        if isinstance(e, ast.BinOp) and isinstance(e.op, (ast.Add, ast.Sub)):
+            a_, b_ = iev(e.left, env), iev(e.right, env)
+            return a_ + b_ if isinstance(e.op, ast.Add) else a_ - b_
+        if isinstance(e, ast.IfExp):
+            return iev(e.body, env) if iev(e.test, env) else iev(e.orelse, env)
+        if isinstance(e, ast.BoolOp):
+            vs = [iev(v, env) for v in e.values]
+            return all(vs) if isinstance(e.op, ast.And) else any(vs)
+        if isinstance(e, ast.Compare) and len(e.ops) == 1:
+            l_, r_ = iev(e.left, env), iev(e.comparators[0], env)
+            o = e.ops[0]
+            return {ast.In: lambda: l_ in r_, ast.NotIn: lambda: l_ not in r_, ast.Eq: lambda: l_ == r_, ast.NotEq: lambda: l_ != r_,
+                    ast.Lt: lambda: l_ < r_, ast.LtE: lambda: l_ <= r_, ast.Gt: lambda: l_ > r_, ast.GtE: lambda: l_ >= r_}[type(o)]()
+        raise Unknown(norm(e))
+    for n in range(15, 23):
+        for leave in (True, False):
+            for hx in (True, False):
+                env = {"$n": n, rm.params[1]: leave, rm.params[2]: hx}
+
+                def atom(e, env=env):
+                    try:
+                        return (bool(iev(fold_consts(P, e, rm, None, locals_=set(PV.defs(rm, None)) | set(rm.params)), env)), True)
+                    except (Unknown, KeyError, TypeError):
+                        return None
+                leaves = [lf for lf in Walker(A, rm, None, atom).walk(g.entry) if not (lf.kind == "raise" and lf.node is g.raise_exit)]
+                desc = f"{n} fields, leave_btcblock={leave}, hex={hx}"
+                n_cases += 1
+                if n not in (17, 18, 19, 20):
+                    okc = all(lf.kind == "raise" and isinstance(lf.value, ast.Call) and norm(lf.value.func) == "ValueError" for lf in leaves) and bool(leaves)
+                    run.check("R5", okc, f"[{desc}] -> ValueError", key=f"remove_mm_fields_if_present|slice-table|reject-{n}", where=rm.loc(),
+                              message=f"a header with {n} fields is not rejected with ValueError ({[lf.kind for lf in leaves]})")
+                    continue
+                keep = n - (2 if leave else 3) if n in (19, 20) else n - (0 if leave else 1)
+                okc = len(leaves) == 1 and leaves[0].kind == "return" and leaves[0].node.ast.value is not None
+                why = f"{[lf.kind for lf in leaves]}"
+                if okc:
+                    lf = leaves[0]
+                    v = lf.deep(lf.node.ast.value, stop=("block",))
+                    if hx:
+                        okc = isinstance(v, ast.Call) and isinstance(v.func, ast.Attribute) and v.func.attr == "hex" and not v.args
+                        v = v.func.value if okc else v
+                    okc = okc and isinstance(v, ast.Call) and norm(v.func) == "rlp.encode" and len(v.args) == 1
+                    why = f"returns `{norm(lf.deep(lf.node.ast.value, stop=('block',)))[:80]}`"
+                    if okc:
+                        x = v.args[0]
+                        for _ in range(4):      # conditional expressions decided by the case's flags
+                            if isinstance(x, ast.IfExp):
+                                try:
+                                    x = x.body if iev(fold_consts(P, x.test, rm, None, locals_={"block"}), env) else x.orelse
+                                except (Unknown, KeyError, TypeError):
+                                    break
+                        try:
+                            if isinstance(x, ast.Name) and x.id == "block":
+                                kept = list(range(n))
+                            elif isinstance(x, ast.Subscript) and norm(x.value) == "block" and isinstance(x.slice, ast.Slice):
+                                sl = slice(*(None if b_ is None else iev(fold_consts(P, b_, rm, None, locals_={"block"}), env)
+                                             for b_ in (x.slice.lower, x.slice.upper, x.slice.step)))
+                                kept = list(range(n))[sl]
+                            else:
+                                kept = None
+                        except (Unknown, KeyError, TypeError):
+                            kept = None
+                        okc = kept == list(range(keep))
+                        why = f"keeps fields {kept if kept is None or len(kept) < 6 else str(kept[:2])[:-1] + ', ..., ' + str(kept[-1]) + ']'} of {n}"
+                        bd_ = lf.env.get("block", lf.bind.get("block"))
+                        okc = okc and bd_ is not None and norm(bd_) == f"rlp.decode(bytes.fromhex({pr}))"
+                run.check("R5", okc, f"[{desc}] -> rlp.encode of the first {keep} fields{' in hex' if hx else ''}", key=f"remove_mm_fields_if_present|slice-table|{n}|{leave}|{hx}",
+                          where=rm.loc(), message=f"merge-mining slice table, case [{desc}]: {why}; expected rlp.encode(block[:{keep}]){'.hex()' if hx else ''} of the decoded header")
+    run.floor("R5", "slice-table cases", n_cases, 32)
     ps = P.func("ledger.block_utils.rlp_mm_payload_size")
     gp = A.cfg(ps, None)
     rr = [n for n in A.own_nodes(ps) if isinstance(n, ast.Return)]
@@ -327,13 +496,16 @@ def _mm_table(run, F, PV, upd, D):
                         okp = len(hr) == 1 and norm(hr[0].value) == f"remove_mm_fields_if_present({hp}, leave_btcblock=False, hex=False)"
     run.check("R5", okp, "payload size over the header without any merge-mining field", key="rlp_mm_payload_size|expr", where=ps.loc(),
               message=f"rlp_mm_payload_size computes {sorted(got)[:1]}")
-    ob = defs_of(A, upd, "optimized_blocks")
-    run.check("R5", len(ob) == 1 and norm(ob[0].value) == "list(map(remove_mm_fields_if_present, blocks))", "ancestor blocks stripped with the defaults, in order",
-              key="update_ancestor|strip", where=upd.loc(), message=f"update_ancestor prepares blocks as `{norm(ob[0].value) if ob else None}`: "
-              "stripping with other options changes the block hash the device computes")
     c = find_calls(A, upd, "_do_block_operation")[0]
-    run.check("R5", norm(c.args[1]) == "optimized_blocks", "the stripped blocks are what is sent", key="update_ancestor|blocks", where=upd.loc(c),
-              message=f"update_ancestor sends `{norm(c.args[1])}`")
+    gu_ = A.cfg(upd, D)
+    forms = set()
+    for cn in gu_.nodes_of(c):
+        for x in PV.expand_consistent(upd, D, c.args[1], cn):
+            cl_ = canon_list_text(x)
+            forms.add(tuple(cl_) if cl_ is not None else ("?" + x,))
+    run.check("R5", forms == {("map(remove_mm_fields_if_present(ELEM(blocks)))",)}, "ancestor blocks stripped with the defaults, in order, and sent",
+              key="update_ancestor|strip", where=upd.loc(c), message=f"update_ancestor sends blocks prepared as {sorted(forms)[:2]}: "
+              "stripping with other options (or not at all, or reordered) changes the block hash the device computes")
     fl = P.func("ledger.block_utils.rlp_first_element_list_payload_length")
     gf = A.cfg(fl, None)
     ldefs = PV.defs(fl, None).get("L", [])
